@@ -18,6 +18,10 @@ CHECKS = {
             "hostile-input runtime monitor: recover around every public entry point, driver-side watchdog for non-termination, independent line-table check of every reported error position",
             "Valid generated programs, token-level mutations of them over the full token alphabet (every keyword and builtin name in every position), raw bytes and directed probes are fed to parser.ParseFile, File.String, Compiler.Compile+Bytecode+RemoveDuplicates, Script.Compile under random configurations (module maps incl. the input as its own module, 0/3/1000/1030 predeclared variables, file import, const-object limit) and as a module body. A panic or a watchdog firing is a violation; every position in a returned ErrorList/CompilerError is recomputed from an independent line table. Held on the inputs listed in evidence.",
             "Inputs <= 64 KiB. Non-termination = 90 s without progress on a case that normally takes milliseconds."),
+    "C09": ("exploration",
+            "history-over-one-object runtime monitor: shadow snapshot of the immutable value taken through Compiled.Get after its creation and after every operation of a random sequence, each operation being its own RunContext on the same Compiled",
+            "Immutable values of four origins (immutable expression, freeze, module export, builtin-module table) built from fresh nested literals are subjected to random sequences of up to 12 operations on themselves and on everything derived from them; after every step the snapshot (whole tree for frozen values, immutable spine for shallow ones) must equal the first one. freeze is additionally checked for equality with its argument, no mutable container reachable from the result, and independence from later writes to the argument. Held on the sequences listed in evidence.",
+            "Trusted: values come from fresh literals (no prior mutable alias). Error payloads are opaque to freeze (identity-compared) and not generated inside frozen values."),
     "C10": ("exploration",
             "algebraic-law runtime monitor over results of one compiled probe script run by the real VM for all ordered pairs of a boundary value pool plus random nested values; independent truthiness and conversion tables",
             "For each pair (a, b) the script evaluates ==, !=, <, <=, >, >= in both operand orders, six ways of observing truthiness, copy and the conversion builtins with and without default. The monitor checks symmetry, negation, converse, trichotomy and <=/>= consistency for same-ordered-type and int/float pairs, int/char ordering by code point without equality, the documented falsiness table, structural equality and state independence of copy (all mutable positions of copy and original are overwritten), and the documented conversion table. Held on the pairs listed in evidence.",
